@@ -48,4 +48,7 @@ section
 variable {α : Type} {φ : Type} [FMem φ α]
 def frd (st : φ) (a : Nat) (i : Int) : α := FMem.get st a i
 def fwr (st : φ) (a : Nat) (i : Int) (v : α) : φ := FMem.set st a i v
+/-- cell `i` of a complex array: the doubles `2i` (real part) and `2i+1` (imaginary part) -/
+def frdC (st : φ) (a : Nat) (i : Int) : Cx α := ⟨frd st a (2 * i), frd st a (2 * i + 1)⟩
+def fwrC (st : φ) (a : Nat) (i : Int) (z : Cx α) : φ := fwr (fwr st a (2 * i) z.re) a (2 * i + 1) z.im
 end
